@@ -3,6 +3,7 @@ import glob
 import json
 import os
 import sys
+import time
 
 import vf
 
@@ -15,7 +16,7 @@ THEOREMS = ["C33_only_locals_renamed", "C33_renamable_not_protected", "C33_renam
 META = {
     "group": "JsMin",
     "technique": "Coq proofs over a token-level Gallina model of minify.go (tokenize, collectLocals, renameLocals, name generator, emit) + vm_compute correspondence with the real functions byte-for-byte + node as behaviour oracle (search layer)",
-    "text": "Proved for all token lists and every map-iteration order: C33_only_locals_renamed (each token is emitted unchanged, or is an identifier from the renamable set, not after '.'/'?.', replaced by its short name, the original kept as key in the shorthand case), C33_renamable_not_protected (renamable names are never reserved words, file-scope names or names used in a template substitution), C33_renaming_injective_fresh and C33_no_capture (short names are pairwise distinct and differ from every identifier of the source). Separator insertion: C33_emit_relex_pairs_partial (every pair over a 64-token alphabet re-lexes to itself after emit, except a listed set of pairs that remain valid JavaScript) and C33_emit_relex_refuted; the code before the repair is refuted by C33_old_refuted. The model is compared with the real tokenizer/collector/renamer/emitter on generated scripts and windows of every shipped dashboard file on every run; original and minified scripts are run under node and every shipped file is syntax-checked after minification. partial: JavaScript semantics are not modelled (scope-blind renaming is only observed through node: recorded findings method-shorthand-name, destructuring-default, global-collision, label-name); relex is proved pairwise, not for whole token lists",
+    "text": "Proved for all token lists and every map-iteration order: C33_only_locals_renamed (each token is emitted unchanged, or is an identifier from the renamable set, not after '.'/'?.', replaced by its short name, the original kept as key in the shorthand case), C33_renamable_not_protected (renamable names are never reserved words, file-scope names or names used in a template substitution), C33_renaming_injective_fresh and C33_no_capture (short names are pairwise distinct and differ from every identifier of the source). Separator insertion: C33_emit_relex_pairs_partial (every pair over a 64-token alphabet re-lexes to itself after emit, except a listed set of pairs that remain valid JavaScript) and C33_emit_relex_refuted; the code before the repair is refuted by C33_old_refuted. The model is compared with the real tokenizer/collector/renamer/emitter on generated scripts and windows of every shipped dashboard file on every run; original and minified scripts are run under node and every shipped file is syntax-checked after minification. partial: JavaScript semantics are not modelled (scope-blind renaming is only observed through node: recorded findings method-shorthand-name, destructuring-default, global-collision); relex is proved pairwise, not for whole token lists",
     "note": "Trusted: Coq kernel; hand-written model tied by correspondence; node 20 as JavaScript oracle; harness/C33/c33_test.go; lib/jsmin_util.py generator and alignment.",
 }
 
@@ -70,7 +71,7 @@ def run(ck):
               "the order in which Go iterates the locals map is a parameter of the model: theorems hold for every order")
     ck.trusted("harness/C33/c33_test.go (in-package overlay), props/C33.py, lib/jsmin_util.py (generator, alignment, hashes)",
                "correspondence evaluated by vm_compute in a generated cases file (outputs compared through a 61-bit polynomial hash)")
-    ck.coq_stage(GROUP, theorems=[] if os.environ.get("C33_DEV") else THEOREMS)
+    ck.coq_stage(GROUP, theorems=THEOREMS)
 
     pkg = "internal/util/javascript"
     ok, binp = vf.go_test_build(ck.work, pkg, {pkg + "/zz_verif_c33_test.go": os.path.join(vf.HARNESS, "C33", "c33_test.go")}, "c33.test")
@@ -89,7 +90,7 @@ def run(ck):
             scripts.append(("gen", s, ["corpus"]))
         for sig, s in ju.PROBES:
             scripts.append(("probe:" + sig, s, []))
-        for _ in range(40 if quick else 400):
+        for _ in range(24 if quick else 400):
             s, feat = ju.gen_script(rng)
             scripts.append(("gen", s, feat))
     shipped = []
@@ -99,7 +100,7 @@ def run(ck):
             shipped.append((os.path.basename(f), data))
     windows = []
     for name, data in shipped:
-        nwin = 2 if quick else 12
+        nwin = 1 if quick else 12
         for _ in range(nwin):
             ln = rng.randint(300, 1500)
             st = rng.randrange(0, max(1, len(data) - ln))
@@ -115,7 +116,7 @@ def run(ck):
         fixed = ["a / /x/.y", "1 .toString()", "a ? .5 : 1", "0xe +1", "a < !--b", "x = y / 2 / z", "/*", "/* a", "/**/", "// c", "'abc", "`a${b}",
                  "a++ + ++b", "a-- - --b", "a\n++\nb", "let {a=1}=o", "/[/]/g.test(s)", "x=>{}", "1e+5+e", "1..toString()", "a?.b?.[c]", "..." , "a**=b>>>=c"]
         malformed += fixed
-        for _ in range(40 if quick else 600):
+        for _ in range(15 if quick else 600):
             malformed.append("".join(rng.choice(alpha) for _ in range(rng.randint(1, 24))))
         malformed = [m for m in malformed if not m.endswith("\\")]
 
@@ -128,6 +129,7 @@ def run(ck):
     if rc != 0:
         ck.violation("harness-run", "harness failed:\n" + log[-1500:], replay={"log": log[-3000:]}, found_input=False)
         return
+    ck.notes.append("t_harness=%.1fs" % (time.time() - ck.t0))
     outs = [json.loads(l) for l in open(outp)]
     n1, n2, n3 = len(scripts), len(scripts) + len(shipped), len(scripts) + len(shipped) + len(windows)
     o_scripts, o_shipped, o_windows, o_mal = outs[:n1], outs[n1:n2], outs[n2:n3], outs[n3:]
@@ -195,6 +197,7 @@ def run(ck):
         jobs += [{"src": data.decode("utf8", "replace"), "mode": "check"}, {"src": bytes.fromhex(o["m0"]).decode("utf8", "replace"), "mode": "check"},
                  {"src": bytes.fromhex(o["m1"]).decode("utf8", "replace"), "mode": "check"}]
     res, nlog = node_batch(ck, jobs, "node")
+    ck.notes.append("t_node=%.1fs" % (time.time() - ck.t0))
     if res is None:
         ck.violation("node-run", "node driver failed:\n" + nlog[-1000:], replay={"log": nlog[-2000:]}, found_input=False)
         return
@@ -291,15 +294,15 @@ Definition chk (c : str * (nat * list (str * str)) * (nat * list (str * str)) * 
   if ov then [99] else
   let st := strip_comments all in
   let '(L, F) := collect_locals st in
-  let ord2 := order_for true (fst ob2) (snd ob2) st in
-  let ord1 := order_for true (fst ob1) (snd ob1) st in
   let R := renamable true st in
+  let ord2 := order_for R (fst ob2) (snd ob2) st in
+  let ord1 := order_for R (fst ob1) (snd ob1) st in
   let ren := rename_locals true ord2 st in
   let got := [hash_toks all; hash_set L; hash_set F;
               match ren with Some r => hash_toks r | None => 0 end;
-              hs (minify0 true src);
+              hs (emit true st);
               match ren with Some r => hs (emit true r) | None => 0 end;
-              match nth 6 h 0 with 0 => 0 | _ => match minify1 true ord1 src with Some b => hs b | None => 1 end end] in
+              match nth 6 h 0 with 0 => 0 | _ => match rename_locals true ord1 st with Some r1 => hs (emit true r1) | None => 1 end end] in
   let perm := set_eqb ord2 R && nodup_b ord2 && (Nat.eqb (List.length ord2) (List.length R)) in
   (if perm then [] else [7]) ++
   flat_map (fun i => if nth i got 0 =? nth i h 0 then [] else [N.of_nat i]) (seq 0 7).
@@ -307,6 +310,7 @@ Fixpoint idx (i : N) (l : list (str * (nat * list (str * str)) * (nat * list (st
   match l with [] => [] | c :: r => match chk c with [] => [] | 99 :: _ => [i * 100 + 99] | e :: _ => [i * 100 + e] end ++ idx (i + 1) r end.
 """)
     ok, r = vf.coq_eval(GROUP, ck.work, "cases", "\n".join(lines), {"BAD": "idx 0 cases"}, timeout=1500)
+    ck.notes.append("t_coq_eval=%.1fs" % (time.time() - ck.t0))
     if not ok:
         ck.violation("correspondence-eval", "model evaluation failed:\n" + r[-1500:], replay={"log": r[-3000:]}, found_input=False)
         return
